@@ -1370,6 +1370,9 @@ func main() {
 	if all || sections["history"] {
 		historySection()
 	}
+	if all || sections["encoded"] {
+		encodedSection()
+	}
 	keys := make([]string, 0, len(stats))
 	for k := range stats {
 		keys = append(keys, k)
